@@ -257,7 +257,8 @@ def parts(tier):
                 Part('two-mutations-whole', make_harness(2, truncation=False), bounds={'mutations_per_request': 2, 'truncation': 'none (whole message)', 'disconnect_after': 'yes/no'},
                      encoded=ENC, budget_s=90)]
     return [Part('one-mutation', make_harness(1), bounds={'mutations_per_request': 1}, encoded=ENC, budget_s=900),
-            Part('two-mutations', make_harness(2), bounds={'mutations_per_request': 2}, encoded=ENC, budget_s=3000)]
+            Part('two-mutations-whole', make_harness(2, truncation=False), bounds={'mutations_per_request': 2, 'truncation': 'none (whole message)', 'disconnect_after': 'yes/no'},
+                 encoded=ENC, budget_s=900)]
 
 
 if __name__ == '__main__':
